@@ -861,6 +861,9 @@ func Run(c *Case, mk func(*scalibr.ScanConfig), slow time.Duration) string {
 		if c.OUT == 2 {
 			paths = append(paths, "/nowhere/x")
 		}
+		if c.OUT == 3 {
+			skip = append(skip, "/vr0x/y") // "/vr0" is a string prefix of it, not a path prefix
+		}
 	}
 	col := &coll{}
 	cfg := &scalibr.ScanConfig{FilesystemExtractors: exs, UseGitignore: c.UG, IgnoreSubDirs: c.ISD, ReadSymlinks: c.RS, MaxFileSize: c.MX, MaxInodes: c.MI,
